@@ -96,13 +96,22 @@ func (x *Exec) load(l *Loc, st *State) Value {
 	if l.Kind == "cell" {
 		v, ok := st.cells[l.Key]
 		if !ok {
-			// globals and unseen cells: unknown initial value
-			t := cellTypeOfLoc(l)
-			nv := x.u.W.Fresh("g."+cellName(l.Key), x.u.W.SortOf(t))
-			x.assumeTypeInv(nv, t, TTrue, st)
-			x.entryCell(l.Key, nv)
-			st.cells[l.Key] = nv
-			v = nv
+			// globals and unseen cells: unknown initial value - the one already given to the cell at
+			// function entry if some other state (a contract clause) read it first: a cell absent
+			// from this state has not been written on this path
+			if ev, ok := x.entryValue(l.Key); ok && !st.gdirty {
+				st.cells[l.Key] = ev
+				v = ev
+			} else {
+				t := cellTypeOfLoc(l)
+				nv := x.u.W.Fresh("g."+cellName(l.Key), x.u.W.SortOf(t))
+				x.assumeTypeInv(nv, t, TTrue, st)
+				if !st.gdirty {
+					x.entryCell(l.Key, nv)
+				}
+				st.cells[l.Key] = nv
+				v = nv
+			}
 		}
 		base = v
 	} else {
@@ -138,6 +147,14 @@ func (x *Exec) entryCell(key interface{}, v Term) {
 			x.entry.cells[key] = v
 		}
 	}
+}
+
+func (x *Exec) entryValue(key interface{}) (Value, bool) {
+	if _, isGlobal := key.(*ssa.Global); !isGlobal || x.entry == nil {
+		return nil, false
+	}
+	v, ok := x.entry.cells[key]
+	return v, ok
 }
 
 func cellTypeOfLoc(l *Loc) types.Type { return l.Root }
